@@ -394,6 +394,12 @@ func c05Run(c *Ctx) {
 		for _, src := range []string{
 			pre + Lines(Var("n", "9075"), Var("digits", "0"), Var("sum", "0"), While("n > 0", "{ sum = sum + n % 10; n = (n - n % 10) / 10; digits = digits + 1; }"), Print(`digits + " " + sum`)),
 			pre + Lines(Var("m", "7"), Var("pairs", "0"), For(Var("i", "0"), "i < m - m % 2", "i = i + 2", "{ "+If("i % 4 == 2", Continue())+" pairs = pairs + 1; }"), Print("pairs"), For(Var("h", "22"), "h != 2", "h = h + 5 % 24", "{ "+Print("h")+" "+If("h > 60", Break())+" }")),
+			// bounds that are not numbers one can order (the square root of a negative number): <= and >= are false, the loop runs no round
+			pre + Lines(Fun("trial", "n", " "+Var("cnt", "0")+" "+For(Var("d", "2"), "d <= "+BI("sqrt", "n"), "d = d + 1", "{ cnt = cnt + 1; "+If("cnt > 20", "{ "+Break()+" }")+" }")+" "+Ret("cnt")+" "), Print("trial(30)"), Print("trial(0 - 7)"), Var("root", BI("sqrt", "0 - 4")), IfElse("root >= 0", Print(`"real"`), Print(`"none"`)), IfElse("root <= 0", Print(`"le"`), Print(`"not le"`)), IfElse("root < 0 || root > 0 || root == 0", Print(`"ordered"`), Print(`"unordered"`)),
+				Var("i", "0"), While("i <= root", "{ i = i + 1; "+If("i > 5", "{ "+Break()+" }")+" }"), Print("i"), While("!(i >= root)", "{ i = i + 1; "+If("i > 3", "{ "+Break()+" }")+" }"), Print("i")),
+			// a table written as a literal in a loop body / function body is a new table in every round / call
+			pre + Lines(For(Var("pass", "0"), "pass < 2", "pass = pass + 1", "{ "+Var("seen", "["+False()+", "+False()+", "+False()+"]")+" "+For(Var("k", "0"), "k < 3", "k = k + 1", "{ "+If("seen[k]", "{ "+Print(`"skip " + k`)+" "+Continue()+" }")+" seen[k] = "+True()+"; "+Print(`"visit " + pass + ":" + k`)+" }")+" }"),
+				Fun("countdown", "", " "+Var("left", "[3]")+" "+Var("rounds", "0")+" "+While("left[0] > 0", "{ left[0] = left[0] - 1; rounds = rounds + 1; }")+" "+Ret("rounds")+" "), Print("countdown()"), Print("countdown()"), Fun("cell", "", " "+Var("st", "{n: 0, on: "+False()+"}")+" "+IfElse("st.on", Print(`"was on"`), "{ st.on = "+True()+"; st.n = st.n + 1; }")+" "+Ret("st.n")+" "), Print("cell()"), Print("cell()")),
 			// conditions that are calls ending in a value-less return ("no more rounds", "nothing found") after calls that returned values
 			pre + Lines(Var("xs", "[4, 7, 9]"), Fun("more", "i", " "+If("i < "+BI("len", "xs"), "{ "+Ret("xs[i]")+" }")+" "+Ret("")+" "), Var("i", "0"), While("more(i)", "{ "+Print("more(i)")+" i = i + 1; "+If("i > 6", Break())+" }"), Print(`"rounds " + i`),
 				Fun("find", "w", " "+For(Var("j", "0"), "j < 3", "j = j + 1", "{ "+If("xs[j] == w", "{ "+Ret("j + 1")+" }")+" }")+" "+Ret("")+" "), For(Var("w", "6"), "w < 10", "w = w + 1", "{ "+If("find(w) == nil", "{ "+Continue()+" }")+" "+Print(`"found " + w`)+" }"), IfElse("find(5)", Print(`"then"`), Print(`"else"`))),
